@@ -69,8 +69,8 @@ Definition step_ok (types : list N) (row : list N) : bool :=
                 (* issued on a closed socket: an error, at once - or, for a mailbox command, the window *)
                 ((res =? 1) && (late =? 0) &&
                    existsb (fun lp => match after_close r lp with ErrPrompt => true | _ => false end)
-                           [LoopServing; LoopLastRecvDone; LoopDropped])
-                || ((res =? 2) && match after_close r LoopLastRecvDone with HangsForever => true | _ => false end)
+                           [LoopServing; LoopLastRecvDone; LoopDrained; LoopDropped])
+                || ((res =? 2) && match after_close r LoopDrained with HangsForever => true | _ => false end)
               else
                 (* issued before / while closing: may succeed or fail; it may stay blocked only where the
                    table says nothing wakes it (or, for a mailbox command, in the window) *)
